@@ -326,6 +326,88 @@ def r08_5(ctx, counts) -> RuleResult:
         raise AnalysisError(f'only {n} yields located in the predicate loop')
     return res
 
+def r08_8(ctx, counts, symbols=('subsequence',), rid='R08.8') -> RuleResult:
+    """the end bound start + length is formed from the unclamped operands"""
+    res = RuleResult(
+        rid, 'END-BOUND-FROM-UNCLAMPED-OPERANDS',
+        'fn:subsequence and fn:substring select the positions p with round(start) <= p < '
+        'round(start) + round(length): the start may lie before the first position and the '
+        'excess is taken from the length (subsequence($s, 0, 2) is one item). In the functions '
+        'bound to them, an addition that has an operand derived from the start argument '
+        '(get_argument index 1) and one derived from the length argument (index 2) therefore '
+        'uses the start without a lower clamp (no max(..) on its definition chain) and the '
+        'length without an upper clamp (no min(..)): clamping either BEFORE the sum moves the end '
+        '(start = max(start - 1, 0); islice(.., start, start + length)). Clamps applied to the '
+        'sum, or to the start where it is used alone as a slice bound, are the correct forms.')
+    bound = bound_symbols(ctx.reg)
+    funcs = sorted((f for f, sy in bound.items() if set(sy) & set(symbols)), key=lambda q: q.key)
+    if not funcs:
+        raise AnalysisError(f'{rid}: no function bound to {symbols}')
+    n = 0
+    for f in funcs:
+        defs: dict[str, list[ast.expr]] = {}
+        for x in walk_local(f.node):
+            if isinstance(x, (ast.Assign, ast.AnnAssign)) and x.value is not None:
+                for t in (x.targets if isinstance(x, ast.Assign) else [x.target]):
+                    if isinstance(t, ast.Name):
+                        defs.setdefault(t.id, []).append(x.value)
+
+        def arg_index(c: ast.AST):
+            if isinstance(c, ast.Call) and dotted(c.func).split('.')[-1] == 'get_argument':
+                for k in c.keywords:
+                    if k.arg == 'index' and isinstance(k.value, ast.Constant):
+                        return k.value.value
+                if len(c.args) > 1 and isinstance(c.args[1], ast.Constant):
+                    return c.args[1].value
+            return None
+
+        def chain(e: ast.expr, depth: int = 0, seen=None) -> tuple[set[int], set[str]]:
+            """(argument indexes the expression derives from, clamp calls on the way)"""
+            seen = set() if seen is None else seen
+            idx: set[int] = set()
+            clamps: set[str] = set()
+            for y in ast.walk(e):
+                i = arg_index(y)
+                if i is not None:
+                    idx.add(i)
+                if isinstance(y, ast.Call) and dotted(y.func) in ('max', 'min'):
+                    clamps.add(dotted(y.func))
+                if isinstance(y, ast.Name) and y.id in defs and y.id not in seen and depth < 6:
+                    seen.add(y.id)
+                    for d in defs[y.id]:
+                        i2, c2 = chain(d, depth + 1, seen)
+                        idx |= i2
+                        clamps |= c2
+            return idx, clamps
+        for x in walk_local(f.node):
+            if not (isinstance(x, ast.BinOp) and isinstance(x.op, ast.Add)):
+                continue
+            li, lc = chain(x.left)
+            ri, rc = chain(x.right)
+            pairs = []
+            if 1 in li and 2 in ri and 2 not in li and 1 not in ri:
+                pairs = [(lc, rc)]
+            elif 2 in li and 1 in ri and 1 not in li and 2 not in ri:
+                pairs = [(rc, lc)]
+            for sc, lenc in pairs:
+                n += 1
+                bad = ('max' in sc, 'min' in lenc)
+                res.instances.append(f'{f.key}: L{x.lineno} `{stmt_text(x)[:50]}` start clamped '
+                                     f'from below={bad[0]} length clamped from above={bad[1]}')
+                if not any(bad):
+                    res.ok()
+                else:
+                    res.fail(finding(rid, f, x, f'end bound {stmt_text(x)[:30]}',
+                                     f'`{stmt_text(x)[:60]}` adds the length to a start that '
+                                     f'was already clamped (or a clamped length to the start): '
+                                     f'the positions before the first one no longer consume '
+                                     f'the length, subsequence((10,20,30), 0, 2) gives two '
+                                     f'items and substring("12345", -3, 7) one character'))
+    counts[f'{rid}_end_bound_sums'] = n
+    if n < 1:
+        raise AnalysisError(f'{rid}: no start + length sum located in {[f.key for f in funcs]}')
+    return res
+
 
 def run(ctx) -> dict:
     model = ctx.model
@@ -395,7 +477,7 @@ def run(ctx) -> dict:
     r7.title = ('PREDICATE-AXIS-DIRECTION (R08.7 = R01.5: a filter takes its results from the '
                 'focus iteration and examines every item)')
     return {
-        'results': [r1, r2, r08_3(ctx, counts), r08_4(ctx, counts), r08_5(ctx, counts), r6, r7],
+        'results': [r1, r2, r08_3(ctx, counts), r08_4(ctx, counts), r08_5(ctx, counts), r6, r7, r08_8(ctx, counts)],
         'counts': counts,
         'explanation':
             'Two thin structural clauses of C08 are decided: the focus numbering that '
